@@ -69,11 +69,13 @@ def handle : Handler := fun j => do
     let inRange := s.allEdits.all (fun e => e.deviceNodes.all (fun n => n.all nodeInRange) &&
       e.hooks.all (fun h => h.all (fun h => h.timeout.all (fun t => decide (0 ≤ t ∧ t ≤ 4294967295)))) &&
       e.additionalGids.all (· ≤ 4294967295))
-    let agree := (o == "skipped" || (o == "ok") == m)
+    -- what the real library did with it (WriteSpec validates before writing)
+    let libAccepts := getBoolD obs "libaccepts" libValid
+    let agree := (o == "skipped" || (o == "ok") == m) && libAccepts == libValid
     let bad (x : String) := x == "err" || x == "panic"
     let judge : Option String :=
       if o == "panic" then some "panic"
-      else if libValid && inRange then
+      else if (libValid || libAccepts) && inRange then
         (if bad o then some "library-valid-spec-fails-builtin-schema"
          else if bad fj then some "written-json-file-fails-builtin-schema"
          else if bad fy then some "written-yaml-file-fails-builtin-schema"
